@@ -46,6 +46,7 @@ type Ctx struct {
 	disagree   int
 	validated  int
 	refBatch   int
+	replayOverride func(p *Prog, f gosx.Failure) (ok bool, detail map[string]interface{}, handled bool)
 }
 
 type Violation struct {
